@@ -70,9 +70,9 @@ class C23(Prop):
     SHARD_TIMEOUT = 2400
     COQ_SHARD = 35
     LEVEL_TEXT = (
-        "Coq theorems (26, closed under the global context) over a byte-level model of the async tar reader and "
+        "Coq theorems (27, closed under the global context) over a byte-level model of the async tar reader and "
         "writer (TellableStreamWrapper.read, SeekableStreamReaderWrapper.seek, FileStreamReaderWrapper.read, "
-        "copyfileobj/write, TarInfo.frombuf incl. checksum/octal fields/ustar prefix, GNU long names, "
+        "copyfileobj/write, TarInfo.frombuf incl. checksum/octal fields/ustar prefix, GNU long names, PAX extended headers (path/linkpath/size), "
         "AioTarStream.next, extract_tar_stream; TarInfo.tobuf(GNU_FORMAT), addfile, _close): (a) outcome and "
         "destination tree depend only on the concatenation of the chunks (any two chunkings, unbounded archive); "
         "(b) a regular member that extract_tar_stream completes has exactly its h_size bytes on both copy paths, for "
@@ -85,12 +85,13 @@ class C23(Prop):
         "as _refuted and listed as known findings, and C23_truncation_prefix/_boundary prove that this is the only "
         "way a cut stream returns normally with members missing (any prefix of any stream, common fuel: ReadError "
         "or a prefix of the member list); symlink targets are extracted verbatim and hard-link targets relative "
-        "to the root (fix 35e756c); PAX/sparse members are exercised by the oracle only.")
+        "to the root (fix 35e756c); C23_writer_chunking: the bytes copied for a member do not depend on how the source "
+        "delivers its reads nor on copybufsize. Global PAX headers and sparse members are outside the model.")
     LEVEL_NOTE = (
         "Trusted: Coq kernel + vm_compute; the hand-written model TarStream/Model.v (tied to /repo only by the "
         "correspondence run on generated archives); CPython tarfile.TarInfo.frombuf/tobuf, GNU tar, the filesystem. "
         "The model's stream is a list of chunks with asyncio.StreamReader.read semantics; compression wrappers, "
-        "device/fifo members, PAX and sparse members are outside the model (oracle only).")
+        "device/fifo members, global PAX headers and sparse members are outside the model (oracle only).")
     TECHNIQUE = ("Coq proof (simulation between a chunked and a flat reader; completeness of finished members) + "
                  "vm_compute correspondence of the model against extract_tar_stream/aiotarstream on real archives")
     RULE = ("extract: random trees (nested dirs, empty files, sizes around 0/511/512/513/1024, names >100 bytes, "
@@ -101,7 +102,7 @@ class C23(Prop):
             "corrupted header, in the three destination configurations (dir->absent, file->absent, file->existing "
             "dir); write: real trees archived by the async writer and read back by Python tarfile, GNU tar and the "
             "async reader. Non-trivial = chunk size < 4096 or a fault or a long name or >= 3 entries. Distinct = "
-            "distinct canonical JSON. Big files (up to 3 MiB) and PAX cases are oracle-only; symlink and hard-link members are in the model's domain.")
+            "distinct canonical JSON. Big files (up to 3 MiB) are oracle-only; PAX archives (Python PAX_FORMAT, GNU tar --format=posix), symlink and hard-link members are in the model's domain.")
     TRUSTED = ("model: TarStream/Model.v is hand-written; CPython's tarfile (frombuf and tobuf(GNU_FORMAT) are re-modelled and tied by the correspondence), "
                "GNU tar 1.34, os/filesystem calls are not verified, only exercised",)
     ASSUMPTIONS = ("the underlying reader behaves like asyncio.StreamReader.read: at most n bytes, b'' only at EOF",
@@ -147,6 +148,10 @@ class C23(Prop):
         for _ in range(rng.randrange(1, maxn)):
             parent = rng.choice(dirs)
             name = parent + "/" + self._name(rng)
+            if rng.random() < 0.15:       # total path length at the 100-byte name field boundary
+                target = rng.choice([98, 99, 100, 101])
+                if len(parent) + 2 <= target:
+                    name = parent + "/" + "B" * (target - len(parent) - 1)
             if name in used or len(name) > 250:
                 continue
             used.add(name)
@@ -196,7 +201,7 @@ class C23(Prop):
                 w = rng.choice(["py-pax", "gnutar-posix", "py-gnu", "gnutar-gnu", "aio-gnu"])
             else:
                 w = rng.choice(["py-gnu", "py-gnu", "py-ustar", "gnutar-gnu", "gnutar-gnu", "gnutar-ustar",
-                                "gnutar-oldgnu", "aio-gnu"])
+                                "gnutar-oldgnu", "aio-gnu", "py-pax", "py-pax", "gnutar-posix", "gnutar-posix"])
             if links and w == "aio-gnu":
                 w = "py-gnu"
             tree = self._tree(rng, cfg != "A", links, big, maxn=5 if big else 8)
@@ -213,8 +218,11 @@ class C23(Prop):
             tree = self._tree(rng, cfg != "A", False, rng.random() < 0.1, maxn=6)
             cases.append({"f": "write", "tree": tree, "buf": rng.choice([None, 1, 7, 512, 1000, 65536]),
                           "abs": rng.random() < 0.5, "chunks": self._chunks(rng)})
-            if cases[-1]["buf"] in (1, 7) and any(isinstance(e.get("c"), dict) for e in tree):
-                cases[-1]["buf"] = 65536
+            if any(isinstance(e.get("c"), dict) for e in tree):      # MiB-sized files: keep the case fast
+                if cases[-1]["buf"] in (1, 7):
+                    cases[-1]["buf"] = 65536
+                if cases[-1]["chunks"][0] < 64:
+                    cases[-1]["chunks"] = [rng.choice([511, 4096, 65536, 100000])]
         return cases
 
     # ------------------------------------------------------------------------------ implementation side
@@ -643,8 +651,6 @@ class C23(Prop):
     ERR = {None: 0, "ReadError": 1}
 
     def _in_model(self, c, o=None):
-        if c["f"] == "extract" and (o or {}).get("w", c["w"]) in ("py-pax", "gnutar-posix"):
-            return False
         for e in c["tree"]:
             if e["k"] not in ("d", "f", "l", "h") or isinstance(e.get("c"), dict):
                 return False
